@@ -21,14 +21,14 @@ Fixpoint cfuel_item (it : item) : nat :=
   match it with IName _ => 2%nat
               | IBlk bk _ _ fa body => (6 + length (bfx bk fa) + fold_right (fun x n => (cfuel_item x + n)%nat) O body)%nat
               | ILeaf lk _ fa ta => (8 + length (lfx lk fa) + 2 * length ta)%nat
-              | IPkg _ _ _ elems => (16 + 3 * length elems)%nat end.
+              | IPkg _ _ _ elems => (16 + 3 * pels_sz elems)%nat end.
 Definition cfuel (l : list item) : nat := fold_right (fun x n => (cfuel_item x + n)%nat) O l.
 Lemma cfuel_cons x t : cfuel (x :: t) = (cfuel_item x + cfuel t)%nat. Proof. reflexivity. Qed.
 Lemma cfuel_blk bk k seg fa body : cfuel_item (IBlk bk k seg fa body) = (6 + length (bfx bk fa) + cfuel body)%nat. Proof. reflexivity. Qed.
 
 Lemma cfuel_leaf lk seg fa ta : cfuel_item (ILeaf lk seg fa ta) = (8 + length (lfx lk fa) + 2 * length ta)%nat. Proof. reflexivity. Qed.
 
-Lemma cfuel_pkg seg k n elems : cfuel_item (IPkg seg k n elems) = (16 + 3 * length elems)%nat. Proof. reflexivity. Qed.
+Lemma cfuel_pkg seg k n elems : cfuel_item (IPkg seg k n elems) = (16 + 3 * pels_sz elems)%nat. Proof. reflexivity. Qed.
 
 Lemma clen_le_cfuel l : (clen l <= cfuel l)%nat.
 Proof. induction l as [|[d|bk k seg fa body|lk seg fa ta|seg k n elems] t IH]; [cbn; lia| | | |]; rewrite cfuel_cons; cbn [clen]; [cbn [cfuel_item]|rewrite cfuel_blk|rewrite cfuel_leaf|rewrite cfuel_pkg]; lia. Qed.
@@ -777,21 +777,26 @@ Definition inert (r : rose) : Prop :=
   match r with RN i a ks => exists op flags af, opInfo (y_info a) = Some (op, flags, af) /\
                                (hasFlag flags aml_pOpFlagNamed = false \/ y_op a = aml_pOpIntScopeBlock) end.
 
-Lemma cst_row_inert : forall elems b off, forallb targ_okb elems = true -> Forall (rallr inert) (leaf_row b (cst_pays h tbl off elems)).
+Lemma pel_trees_inert : forall elems b off, forallb pel_okb elems = true -> Forall (rallr inert) (pel_trees h tbl b off elems).
 Proof.
-  induction elems as [|d r IH]; intros b off Hok; [constructor|]. cbn [forallb] in Hok. apply andb_prop in Hok. destruct Hok as [Hd Hok].
-  cbn [cst_pays leaf_row]. constructor; [|apply IH; exact Hok]. constructor; [|constructor].
-  destruct d as [d|bs]; cbn [targ_okb targ_pay inert] in *.
-  - unfold cst_okb in Hd. apply andb_prop in Hd. destruct Hd as [Hc _]. unfold cst_pay. cbn [y_info y_op].
-    destruct (is_constb_cases _ Hc) as [E|[E|[E|[E|[E|[E|E]]]]]]; rewrite E; (do 3 eexists; split; [reflexivity|left; reflexivity]).
-  - do 3 eexists. split; [reflexivity|left; reflexivity].
+  induction elems as [|d r IH|k n es r IHe IH] using pels_ind; intros b off Hok; [constructor| |];
+    cbn [forallb] in Hok; apply andb_prop in Hok; destruct Hok as [Hd Hok]; rewrite pel_trees_cons; (constructor; [|apply IH; exact Hok]).
+  - cbn [pel_tree]. constructor; [|constructor]. cbn [pel_okb] in Hd.
+    destruct d as [d|bs]; cbn [targ_okb targ_pay inert] in *.
+    + unfold cst_okb in Hd. apply andb_prop in Hd. destruct Hd as [Hc _]. unfold cst_pay. cbn [y_info y_op].
+      destruct (is_constb_cases _ Hc) as [E|[E|[E|[E|[E|[E|E]]]]]]; rewrite E; (do 3 eexists; split; [reflexivity|left; reflexivity]).
+    + do 3 eexists. split; [reflexivity|left; reflexivity].
+  - rewrite pel_okb_sub in Hd. apply andb_prop in Hd. destruct Hd as [_ Hes]. rewrite pel_tree_sub.
+    constructor; [cbn [inert]; do 3 eexists; split; [reflexivity|left; reflexivity]|].
+    constructor; [constructor; [cbn [inert]; do 3 eexists; split; [reflexivity|left; reflexivity]|constructor]|].
+    constructor; [|constructor]. constructor; [cbn [inert]; do 3 eexists; split; [reflexivity|right; reflexivity]|]. apply IHe. exact Hes.
 Qed.
 
-Lemma pkg_tree_inert b off k n elems : forallb targ_okb elems = true -> rallr inert (pkg_tree h tbl b off k n elems).
+Lemma pkg_tree_inert b off k n elems : forallb pel_okb elems = true -> rallr inert (pkg_tree h tbl b off k n elems).
 Proof.
-  intros Hok. unfold pkg_tree. constructor; [cbn [inert]; do 3 eexists; split; [reflexivity|left; reflexivity]|].
+  intros Hok. unfold pkg_tree. rewrite pel_tree_sub. constructor; [cbn [inert]; do 3 eexists; split; [reflexivity|left; reflexivity]|].
   constructor; [constructor; [cbn [inert]; do 3 eexists; split; [reflexivity|left; reflexivity]|constructor]|].
-  constructor; [|constructor]. constructor; [cbn [inert]; do 3 eexists; split; [reflexivity|right; reflexivity]|]. apply cst_row_inert. exact Hok.
+  constructor; [|constructor]. constructor; [cbn [inert]; do 3 eexists; split; [reflexivity|right; reflexivity]|]. apply pel_trees_inert. exact Hok.
 Qed.
 
 Lemma inert_conn_ok g i a ks : inert (RN i a ks) -> conn_ok g h i a.
@@ -801,7 +806,7 @@ Proof.
 Qed.
 
 Lemma post2_pkg g pl g1 pl1 g' x b off seg k n elems rest pre post B' off' :
-  let m := length elems in
+  let m := pels_sz elems in
   B' = b + N.of_nat (5 + m) -> (x < b \/ B' + N.of_nat (iszs rest) <= x) ->
   Post2 g pl g1 pl1 x B' (iszs rest) (pre ++ [b; b + 2]) post (lay2 h tbl B' off' rest) ->
   pget pl1 b = Some (nam_pay h off name_zero) -> pget pl1 (b + 1) = Some (pth_pay h tbl (off + 1)) -> kids g1 (b + 1) = [] ->
@@ -840,16 +845,16 @@ Proof.
   apply andb_prop in Hd_ok. destruct Hd_ok as [_ Hel_ok].
   rewrite lay1_cons in Hk, HD |- *. rewrite iszs_cons, isz_pkg in Hrange. rewrite cfuel_cons, cfuel_pkg in Hf.
   cbn [lay1_item] in Hk, HD |- *. rewrite isz_pkg, enc_pkg_item in Hk, HD |- *.
-  set (m := length elems) in *.
+  set (m := pels_sz elems) in *.
   set (B' := b + N.of_nat (5 + m)) in *.
-  set (off' := off + lenN (OP_NAME :: seg_bytes seg ++ [OP_PACKAGE] ++ enc_pkglen k (k + lenN ([n] ++ enc_ta elems)) ++ [n] ++ enc_ta elems)) in *.
+  set (off' := off + lenN (OP_NAME :: seg_bytes seg ++ [OP_PACKAGE] ++ enc_pkglen k (k + lenN ([n] ++ enc_pels elems)) ++ [n] ++ enc_pels elems)) in *.
   cbn [app map ridx] in Hk |- *. change (ridx (pkg_tree h tbl (b + 2) (off + 5) k n elems)) with (b + 2) in Hk |- *.
   pose proof (Forall_inv HD) as DN. pose proof (Forall_inv (Forall_inv_tail HD)) as DP. pose proof (Forall_inv_tail (Forall_inv_tail HD)) as HDrest. clear HD.
   destruct (Desc_inv _ _ _ _ _ DN) as (PN & KN & HDp). pose proof (Forall_inv HDp) as Dpth. clear HDp.
   destruct (Desc_inv _ _ _ _ _ Dpth) as (PP & KP & _). cbn [map ridx] in KN, KP.
   rewrite enc_items_cons, enc_pkg_item in Hdata.
   replace (pre ++ b :: b + 2 :: map ridx (lay1 h tbl B' off' rest)) with ((pre ++ [b; b + 2]) ++ map ridx (lay1 h tbl B' off' rest)) by (rewrite <- app_assoc; reflexivity).
-  eapply (IH x (pre ++ [b; b + 2]) post B' off' s g pl f ax (R + 16 + 3 * m)%nat (dpre ++ OP_NAME :: seg_bytes seg ++ [OP_PACKAGE] ++ enc_pkglen k (k + lenN ([n] ++ enc_ta elems)) ++ [n] ++ enc_ta elems) dpost Q);
+  eapply (IH x (pre ++ [b; b + 2]) post B' off' s g pl f ax (R + 16 + 3 * m)%nat (dpre ++ OP_NAME :: seg_bytes seg ++ [OP_PACKAGE] ++ enc_pkglen k (k + lenN ([n] ++ enc_pels elems)) ++ [n] ++ enc_pels elems) dpost Q);
     [exact H|rewrite Hk, <- !app_assoc; reflexivity|exact HDrest|exact Hx|exact Hlx|unfold B'; lia|exact Hh|exact Htb| | |exact Hok|lia|lia|].
   { rewrite Hdata, <- !app_assoc. reflexivity. }
   { unfold off'. rewrite Hoff. symmetry. apply lenN_app. }
@@ -876,7 +881,7 @@ Proof.
   assert (PPk : pget pl1 (b + 2) = Some (pkg_pay h (off + 5))) by (apply (Desc_inv _ _ _ _ _ DP1)).
   replace (pre ++ [b]) with (rev (rev (pre ++ [b]))) by apply rev_involutive.
   eapply (conn_step g1 pl1 h (fun y => In y (rnodes PT)) (fun y a Hy Ha Hl => HPall y a Hy Ha Hl) _ x (rev (pre ++ [b])) (b + 2) l2 (pkg_pay h (off + 5)) (with_tree s t1));
-    [|exact H1|exact Hh|rewrite rev_involutive, Hk1, <- !app_assoc; reflexivity|unfold PT, pkg_tree; rewrite rnodes_eq; left; reflexivity|exact PPk|discriminate| |].
+    [|exact H1|exact Hh|rewrite rev_involutive, Hk1, <- !app_assoc; reflexivity|unfold PT, pkg_tree; rewrite pel_tree_sub, rnodes_eq; left; reflexivity|exact PPk|discriminate| |].
   { refine (proj1 (connS_all g1 pl1 h (fun y => In y (rnodes PT)) _ (fun y a Hy Ha Hl => HPall y a Hy Ha Hl) _)).
     intros y c Hy Hc. apply (Desc_kids_in g1 pl1 PT DP1 y c Hy Hc). }
   { change (b + 2) with (ridx PT). apply (fwalkb_size g1 pl1 PT DP1). unfold PT. rewrite pkg_tree_rsize. fold m. exact HF3. }
